@@ -226,6 +226,10 @@ func c06Lns(f []string) string {
 			}
 			code := map[byte]uint8{'a': ppp.ConfAck, 'n': ppp.ConfNak, 'j': ppp.ConfRej}[ev[1]]
 			s.IPCP.FSM().Input(code, sid, c06Bytes(ev[2:]))
+		case ev == "T":
+			if st := s.IPCP.FSM().State(); st == ppp.ReqSent || st == ppp.AckRcvd || st == ppp.AckSent {
+				s.IPCP.FSM().Timeout()
+			}
 		case ev[0] == 't':
 			tid, _ := strconv.Atoi(ev[1:])
 			s.IPCP.FSM().Input(ppp.TermReq, uint8(tid), nil)
@@ -357,6 +361,133 @@ func c06Lns6(f []string) string {
 			s.IPv6CP.FSM().Input(ppp.ConfNak, rid, c06Bytes(ev[1:]))
 		case 'j':
 			s.IPv6CP.FSM().Input(ppp.ConfRej, rid, c06Bytes(ev[1:]))
+		case 'T':
+			if st := s.IPv6CP.FSM().State(); st == ppp.ReqSent || st == ppp.AckRcvd || st == ppp.AckSent {
+				s.IPv6CP.FSM().Timeout()
+			}
+		default:
+			return "badevent"
+		}
+		parts = append(parts, show())
+	}
+	return strings.Join(parts, " | ")
+}
+
+// LCP inside a real LNS session: initSessionPPP creates LCP (random magic, CHAP-MD5 wanted) and opens it
+func c06LnsL(f []string) string {
+	var sent []c06Pkt
+	c := New(logger.NewTest())
+	c.SetSendControlFn(func(localIP, peerIP net.IP, localPort, peerPort uint16, header l2tppkt.Header, body []byte) error {
+		if len(body) < 6 || uint16(body[0])<<8|uint16(body[1]) != ppp.ProtoLCP {
+			return nil
+		}
+		l := int(body[4])<<8 | int(body[5])
+		if l < 4 || 2+l > len(body) {
+			sent = append(sent, c06Pkt{code: 255})
+			return nil
+		}
+		sent = append(sent, c06Pkt{code: body[2], id: body[3], data: append([]byte(nil), body[6:2+l]...)})
+		return nil
+	})
+	s := &Session{
+		SessionID:  "s1",
+		Tunnel:     &Tunnel{LocalIP: net.IPv4(192, 0, 2, 1), PeerIP: net.IPv4(192, 0, 2, 2), LocalID: 1, PeerID: 2, LocalPort: 1701, PeerPort: 1701},
+		LocalID:    3,
+		PeerID:     4,
+		Attributes: map[string]string{},
+	}
+	c.initSessionPPP(s)
+	defer func() {
+		c.stopCHAPRetryTimer(s)
+		s.IPCP.FSM().Kill()
+		s.IPv6CP.FSM().Kill()
+		s.LCP.FSM().Kill()
+	}()
+	var lastReq *c06Pkt
+	show := func() string {
+		var acts []string
+		for i := range sent {
+			p := sent[i]
+			switch p.code {
+			case ppp.ConfReq:
+				lastReq = &sent[i]
+				acts = append(acts, "scr:"+c06ShowWire(p.data))
+			case ppp.ConfAck:
+				acts = append(acts, fmt.Sprintf("sca:%d:%s", p.id, c06ShowWire(p.data)))
+			case ppp.ConfNak:
+				var parts []string
+				d := p.data
+				ok := len(d) > 0
+				for j := 0; ok && j < len(d); {
+					if j+2 > len(d) || int(d[j+1]) < 2 || j+int(d[j+1]) > len(d) {
+						ok = false
+						break
+					}
+					v := d[j+2 : j+int(d[j+1])]
+					switch {
+					case d[j] == 5 && len(v) == 4 && (uint32(v[0])<<24|uint32(v[1])<<16|uint32(v[2])<<8|uint32(v[3])) != 0:
+					case d[j] == 1 && len(v) == 2 && (uint16(v[0])<<8|uint16(v[1])) >= 64:
+					case d[j] == 3 && (string(v) == "\xc0\x23" || string(v) == "\xc2\x23\x05"):
+					default:
+						ok = false
+					}
+					parts = append(parts, strconv.Itoa(int(d[j]))+".S")
+					j += int(d[j+1])
+				}
+				if ok {
+					acts = append(acts, fmt.Sprintf("scn:%d:%s", p.id, strings.Join(parts, ",")))
+				} else {
+					acts = append(acts, fmt.Sprintf("scn:%d:%s", p.id, c06ShowWire(p.data)))
+				}
+			case ppp.ConfRej:
+				acts = append(acts, fmt.Sprintf("scj:%d:%s", p.id, c06ShowWire(p.data)))
+			case ppp.TermAck:
+				acts = append(acts, fmt.Sprintf("sta:%d", p.id))
+			default:
+			}
+		}
+		sent = nil
+		a := "-"
+		if len(acts) > 0 {
+			a = strings.Join(acts, " ")
+		}
+		up := 0
+		if s.LCP.FSM().State() == ppp.Opened {
+			up = 1
+		}
+		return fmt.Sprintf("%s up=%d lm=%08x", a, up, s.LCP.LocalConfig().Magic)
+	}
+	parts := []string{show()}
+	for _, ev := range f[1:] {
+		var rid uint8
+		var rdata []byte
+		if lastReq != nil {
+			rid, rdata = lastReq.id, lastReq.data
+		}
+		switch ev[0] {
+		case 'q':
+			i := strings.IndexByte(ev, '.')
+			id, _ := strconv.Atoi(ev[1:i])
+			s.LCP.FSM().Input(ppp.ConfReq, uint8(id), c06Bytes(ev[i+1:]))
+		case 'e':
+			id, _ := strconv.Atoi(ev[1:])
+			var m []byte
+			for j := 0; j+1 < len(rdata) && int(rdata[j+1]) >= 2 && j+int(rdata[j+1]) <= len(rdata); j += int(rdata[j+1]) {
+				if rdata[j] == 5 {
+					m = append(m, rdata[j:j+int(rdata[j+1])]...)
+				}
+			}
+			s.LCP.FSM().Input(ppp.ConfReq, uint8(id), m)
+		case 'k':
+			s.LCP.FSM().Input(ppp.ConfAck, rid, rdata)
+		case 'n':
+			s.LCP.FSM().Input(ppp.ConfNak, rid, c06Bytes(ev[1:]))
+		case 'j':
+			s.LCP.FSM().Input(ppp.ConfRej, rid, c06Bytes(ev[1:]))
+		case 'T':
+			if st := s.LCP.FSM().State(); st == ppp.ReqSent || st == ppp.AckRcvd || st == ppp.AckSent {
+				s.LCP.FSM().Timeout()
+			}
 		default:
 			return "badevent"
 		}
@@ -378,6 +509,9 @@ func c06Case(line string) (out string) {
 	f := strings.Fields(line)
 	if len(f) >= 2 && f[0] == "l6" {
 		return c06Lns6(f[1:])
+	}
+	if len(f) >= 2 && f[0] == "ll" {
+		return c06LnsL(f[1:])
 	}
 	if len(f) < 2 || f[0] != "lns" {
 		return "badline"
